@@ -23,25 +23,29 @@ from ..core import Case, MachineryError
 
 ID = 'C18'
 MANIFEST = {
-    'text': ('Coq theorems (unbounded, closed): C18_exec_map_eq_seq -- an executable machine for the Executor.map contract (FIFO start, at most k running, '
-             'ANY completion order pi, chunks of size c, results in submission order, first exception re-raised) returns the sequential list comprehension for '
-             'every pi, k>=1, c>=1, thread and process pools; C18_pool_eq_sequential / C18_keys_aligned / C18_failure_surfaces -- static-frame\'s apply_pool '
-             '(keys recorded by side effect while the arguments are generated, zip(keys, map(...)), VALUES and ITEMS shapes) equals apply: same labels, same order, '
-             'result i is f(input i) next to label i, and any failing task makes the call an error (the first one in input order), never a shorter or shifted result; '
-             'C18_batch_pool_eq_sequential, C18_batch_except_eq_sequential, C18_except_skips_exactly_failing, C18_except_unlisted_surfaces -- Batch with max_workers; '
-             'C18_store_write_parallel_eq_serial, C18_store_read_parallel_eq_serial/_agrees, C18_store_roundtrip_parallel -- zipped stores with read/write workers, '
-             'with the `multiprocess` decisions REGENERATED from store_zip.py; C18_config_map_worker_settings_uniform / _rejects_misaligned -- StoreConfigMap, against the '
-             'regenerated _ALIGN_WITH_DEFAULT_ATTRS; C18_lazy_map_would_lose_everything -- the eager-consumption clause of the contract is necessary. '
-             'Correspondence: public API through real Thread/ProcessPoolExecutors under enforced completion schedules (every k-feasible permutation for small n), '
-             'max_workers 1..8, chunksize 1..n+1, all iterator interfaces in values and items forms, Batch apply/apply_items/*_except, zipped TSV stores (read_many/write '
-             'through Frame-subclass hooks), failing tasks at every position; free-running and malformed streams; StoreConfigMap decision table.'),
+    'text': ('Coq theorems (unbounded, closed under the global context). Oracle level: C18_exec_map_eq_seq -- an executable machine for the Executor.map contract '
+             '(FIFO start, at most k running, ANY completion order pi, process-pool chunks of size c, results in submission order, first exception re-raised) returns the '
+             'sequential list comprehension for every pi, k>=1, c>=1, thread and process pools. static-frame level: C18_pool_eq_sequential, C18_keys_aligned, '
+             'C18_failure_surfaces -- apply_pool (keys recorded by side effect while the arguments are generated, zip(keys, map(...)), VALUES and ITEMS shapes) equals apply: '
+             'same labels, same order, result i is f(input i) next to label i; any failing task makes the call an error (the first one in input order), never a shorter or '
+             'shifted result; C18_lazy_map_would_lose_everything -- the eager-consumption clause of the contract is necessary; C18_batch_pool_eq_sequential, '
+             'C18_batch_except_eq_sequential, C18_except_skips_exactly_failing, C18_except_unlisted_surfaces -- Batch with max_workers; C18_store_write_parallel_eq_serial, '
+             'C18_store_read_parallel_eq_serial, C18_store_read_parallel_agrees, C18_store_roundtrip_parallel -- zipped stores with read/write workers, over the `multiprocess` '
+             'decisions REGENERATED from store_zip.py; C18_config_map_worker_settings_uniform, C18_config_map_rejects_misaligned -- StoreConfigMap, over the regenerated '
+             '_ALIGN_WITH_DEFAULT_ATTRS and pool-argument names. Refuted/C18.v: witnesses of the two known findings. '
+             'Correspondence: public API through real Thread/ProcessPoolExecutors under ENFORCED completion schedules (every k-feasible permutation of the futures for small n), '
+             'max_workers 1..8, chunksize 1..n+1, every iterator interface (elements, arrays, Series, tuples, groups, group labels, windows, hierarchical labels, Bus; values and '
+             'items forms), Batch apply/apply_items/*_except, zipped TSV stores (read_many/write, hooks through a Frame subclass run inside the workers), failing tasks at every '
+             'position; free-running stream with duplicated arguments and max_workers=None; malformed stream (max_workers<=0, chunksize<1); StoreConfigMap decision table.'),
     'note': ('partial: the contract of concurrent.futures (eager consumption of the argument iterable, FIFO start, results in submission order, first exception '
              're-raised) is an ORACLE: modelled executably, validated each run against real pools under enforced schedules (a disagreement is a machinery error), not '
-             'proved from CPython; pickling between processes, the GIL and interleavings inside concurrent.futures are assumed. Batch attribute forms and Bus/Batch store '
-             'round trips are compared parallel-vs-sequential on the Python side only. trusted: Coq kernel, hand models SF/Pool.v SF/PoolStore.v, ast extractor generate(), harness.'),
+             'proved from CPython; pickling between processes, the GIL and interleavings inside concurrent.futures are assumed. Batch attribute/operator forms and Bus/Batch '
+             'zipped-store round trips (tsv, csv, pickle) are compared parallel-vs-sequential on the Python side only; the per-frame codecs are abstract in the theorems. '
+             'Known findings (explicit errors, not silent wrong answers): *_except forms refuse chunksize != 1; Frame.iter_tuple default namedtuples cannot be pickled to a '
+             'process pool. trusted: Coq kernel, hand models SF/Pool.v SF/PoolStore.v, ast extractor generate(), harness.'),
     'technique': 'refinement proof M=S for all schedules + generated decisions + schedule-enforced differential correspondence',
 }
-PROPERTY_FILES = ['Properties/C18.v']
+PROPERTY_FILES = ['Properties/C18.v', 'Properties/C18Store.v']
 REFUTED_FILES = ['Refuted/C18.v']
 MODEL_FILES = ['SF/Pool.v', 'SF/PoolStore.v', 'SF/PoolVal.v']
 IMPORTS = 'Require Import SF.Prelude SF.Value SF.Pool SF.PoolStore SF.PoolVal.'
@@ -507,6 +511,11 @@ def pairs_lit(pairs):
     return lit.lst([f'({lit.val(k)}, {lit.val(v)})' for k, v in pairs])
 
 
+def ditems_lit(cpairs):
+    '''(key, value) pairs as the Coq cases take them: structured key, DIGEST of the value.'''
+    return lit.lst([f'({lit.val(k)}, {lit.z(digest(v))})' for k, v in cpairs])
+
+
 def vals_lit(xs):
     return lit.lst([lit.val(x) for x in xs])
 
@@ -564,6 +573,31 @@ def iface_specs(n):
             out.append(('Frame.iter_element[0]', lambda: _frame(*shape), 'iter_element', {'axis': 0}, 'elements'))
             out.append(('Frame.iter_element[1]', lambda: _frame(*shape), 'iter_element', {'axis': 1}, 'elements'))
     out.append(('Index.iter_label', lambda: sf.Index(np.array([20 + 3 * i for i in range(n)], dtype=np.int64)), 'iter_label', {}, 'labels'))
+    if n >= 1:
+        # hierarchical labels (tuple keys), grouping by an outer level, and a Bus of frames
+        def ih_series():
+            ih = sf.IndexHierarchy.from_labels([('o%d' % (i // 2), i) for i in range(n)])
+            return sf.Series(np.array([5 + 3 * i for i in range(n)], dtype=np.int64), index=ih, name='h')
+
+        def ih_labels():
+            return sorted(('g%d' % (i % n), i) for i in range(n + min(n, 2)))
+
+        def gl_series():
+            labels = ih_labels()
+            return sf.Series(np.array([2 + 5 * i for i in range(len(labels))], dtype=np.int64), index=sf.IndexHierarchy.from_labels(labels))
+
+        def gl_frame():
+            labels = ih_labels()
+            a = np.array([[7 * i, 7 * i + 1] for i in range(len(labels))], dtype=np.int64)
+            return sf.Frame(a, index=sf.IndexHierarchy.from_labels(labels), columns=('x', 'y'))
+
+        def bus():
+            return sf.Bus.from_frames([sf.Frame(np.array([[90 + 17 * i, 1], [2, 3]], dtype=np.int64), index=('p', 'q'), columns=('x', 'y'), name=f'B{i}')
+                                       for i in range(n)])
+        out.append(('SeriesIH.iter_element', ih_series, 'iter_element', {}, 'series'))
+        out.append(('Series.iter_group_labels', gl_series, 'iter_group_labels', {'depth_level': 0}, 'series'))
+        out.append(('Frame.iter_group_labels', gl_frame, 'iter_group_labels', {'depth_level': 0}, 'series'))
+        out.append(('Bus.iter_element', bus, 'iter_element', {}, 'series'))
     return out
 
 
@@ -574,16 +608,37 @@ def get_items(container, attr, kw):
     return list(getattr(container, attr + '_items')(**kw))
 
 
+class Observed(list):
+    '''The (label, value) pairs of a returned container + what else the two forms must agree on (compared on the Python side).'''
+    extras = None
+
+    def __eq__(self, other):
+        return list.__eq__(self, other) and getattr(other, 'extras', None) == self.extras
+
+    def __ne__(self, other):
+        return not self.__eq__(other)
+
+    def __repr__(self):
+        return list.__repr__(self) + (f' {self.extras}' if self.extras else '')
+
+
 def observe_container(result, ctor, axis=None):
     '''Returned container -> what the model predicts: (label, value) pairs in the container's own order.'''
     import static_frame as sf
     if ctor == 'labels':
-        return [canon(x) for x in result.tolist()]
+        out = Observed(canon(x) for x in result.tolist())
+        out.extras = (type(result).__name__, str(result.dtype))
+        return out
     if ctor == 'elements':
-        return [(canon(k), canon(v)) for k, v in result.iter_element_items(axis=axis)]
+        out = Observed((canon(k), canon(v)) for k, v in result.iter_element_items(axis=axis))
+        out.extras = (type(result).__name__, repr(result.name), [str(d) for d in result.dtypes.values],
+                      type(result.index).__name__, type(result.columns).__name__, lit.labels(result.index), lit.labels(result.columns))
+        return out
     if not isinstance(result, sf.Series):
         raise MachineryError(f'C18: unexpected result class {type(result).__name__}')
-    return list(zip([canon(x) for x in lit.labels(result.index)], [canon(x) for x in result.values.tolist()]))
+    out = Observed(zip([canon(x) for x in lit.labels(result.index)], [canon(x) for x in result.values.tolist()]))
+    out.extras = (type(result).__name__, repr(result.name), str(result.dtype), type(result.index).__name__, repr(result.index.name))
+    return out
 
 
 # ------------------------------------------------------------------------------------------ oracle stratum
@@ -638,7 +693,7 @@ def oracle_cases(ctx, kind, sizes, ks):
                                    {'call': f'{pool.__name__}(max_workers={k}).map(f, xs, chunksize={c})', 'xs': xs, 'completion_order': list(pi),
                                     'failing_digests': {str(d): v for d, v in fails.items()}, 'observed': [ok, repr(payload)]},
                                    m=(f'c18_exec_M {fails_lit(fails)} {kind_lit(kind)} {lit.z(k)} {lit.z(c)} {nat_list(choices_of(pi, m, k))} '
-                                      f'{vals_lit(xs)} {obs}'),
+                                      f'{lit.lst([lit.z(d) for d in digests])} {obs}'),
                                    tags={'op': 'oracle', 'kind': kind}, nontrivial=(m >= 2))
 
 
@@ -702,18 +757,34 @@ def run_apply_seq(container, attr, kw, ctor, items_form, fails):
         return False, err_name(e)
 
 
-def apply_case(ctx, stratum, iname, kw, ctor, items_form, kind, k, c, pi, m, fails, cpairs, ok, payload, sok, spayload, tags=None, with_s=True, mfn=None):
+def ekey_lit(k):
+    return f'({lit.val(k[0])}, {lit.val(k[1])})'
+
+
+def apply_case(ctx, stratum, iname, kw, ctor, items_form, kind, k, c, pi, m, fails, cpairs, ok, payload, sok, spayload, tags=None, with_s=True, mfn=None,
+               container=None):
     py_fail = None
     if with_s and (ok != sok or (ok and payload != spayload)):
         py_fail = f'apply_pool gave {"Ok" if ok else "Err"} {payload}, apply gave {"Ok" if sok else "Err"} {spayload}'
-    printer = vals_lit if ctor == 'labels' else pairs_lit
-    obs = res_lit(ok, payload, printer)
-    fn = 'c18_labels' if ctor == 'labels' else 'c18_apply'
-    common = f'{lit.b(items_form)} {fails_lit(fails)}'
     kk = k if k is not None else 4
     choices = choices_of(pi, m, kk) if pi is not None else []
-    mterm = f'{mfn or fn + "_M"} {common} {kind_lit(kind)} {lit.z(kk)} {lit.z(c)} {nat_list(choices)} {pairs_lit(cpairs)} {obs}'
-    sterm = f'{fn}_S {common} {pairs_lit(cpairs)} {obs}' if with_s else None
+    common = f'{lit.b(items_form)} {fails_lit(fails)}'
+    pool = f'{kind_lit(kind)} {lit.z(kk)} {lit.z(c)} {nat_list(choices)}'
+    if ctor == 'elements':
+        # keys are (row, column) pairs; the model rebuilds the Frame from the delivered stream by run segmentation on the outer key
+        axis = kw.get('axis', 0)
+        outer = lit.labels(container.index if axis == 0 else container.columns)
+        inner = lit.labels(container.columns if axis == 0 else container.index)
+        items = lit.lst([f'({ekey_lit(key)}, {lit.z(digest(v))})' for key, v in cpairs])
+        obs = res_lit(ok, payload, lambda p: lit.lst([f'({ekey_lit(key)}, {lit.val(v)})' for key, v in p]))
+        mterm = f'c18_elements_M {lit.b(axis == 1)} {common} {pool} {vals_lit([canon(x) for x in outer])} {vals_lit([canon(x) for x in inner])} {items} {obs}'
+        sterm = f'c18_elements_S {common} {items} {obs}' if with_s else None
+    else:
+        printer = vals_lit if ctor == 'labels' else pairs_lit
+        obs = res_lit(ok, payload, printer)
+        fn = 'c18_labels' if ctor == 'labels' else 'c18_apply'
+        mterm = f'{mfn or fn + "_M"} {common} {pool} {ditems_lit(cpairs)} {obs}'
+        sterm = f'{fn}_S {common} {ditems_lit(cpairs)} {obs}' if with_s else None
     full = f'{iname}{"_items" if items_form else ""}'
     t = {'op': 'apply_pool', 'iface': iname, 'kind': kind, 'items_form': items_form}
     t.update(tags or {})
@@ -751,7 +822,7 @@ def apply_pool_cases(ctx, kind, n, specs, ks, cs, fail_mode, stratum, rot, forms
                             sok, spayload = seq_cache[fkey]
                             ctx.count(f'iface:{iname}', f'kind:{kind}', f'n:{n}', f'k:{k}', f'c:{c}', f'futures:{m}',
                                       f'fails:{len(fails)}', 'form:items' if items_form else 'form:values')
-                            yield apply_case(ctx, stratum, iname, kw, ctor, items_form, kind, k, c, pi, m, fails, cpairs, ok, payload, sok, spayload)
+                            yield apply_case(ctx, stratum, iname, kw, ctor, items_form, kind, k, c, pi, m, fails, cpairs, ok, payload, sok, spayload, container=container)
 
 
 def cs_threads(n, ks):
@@ -817,7 +888,7 @@ def free_cases(ctx):
         sok, spayload = run_apply_seq(container, attr, kw, ctor, items_form, fails)
         ctx.count(f'free:iface:{iname}', f'free:kind:{kind}', f'free:n:{nt}', f'free:fails:{len(fails)}')
         yield apply_case(ctx, 'api:apply_pool-free', iname, kw, ctor, items_form, kind, k, c, None, n_futures(nt, c, kind), fails, cpairs,
-                         ok, payload, sok, spayload, tags={'free': True})
+                         ok, payload, sok, spayload, tags={'free': True}, container=container)
 
 
 def malformed_cases(ctx):
@@ -952,12 +1023,12 @@ def batch_cases(ctx, kind, sizes, ks, fail_mode, rot, cs_fn):
                             choices = choices_of(pi, m, k) if pi is not None else []
                             if is_except:
                                 mterm = (f'c18_batch_except_M {lit.b(items_form)} {fails_lit(fails)} "ValueError" {lit.z(k)} {lit.z(c)} {nat_list(choices)} '
-                                         f'{pairs_lit(cpairs)} {obs}')
-                                sterm = f'c18_batch_except_S {lit.b(items_form)} {fails_lit(fails)} "ValueError" {pairs_lit(cpairs)} {obs}'
+                                         f'{ditems_lit(cpairs)} {obs}')
+                                sterm = f'c18_batch_except_S {lit.b(items_form)} {fails_lit(fails)} "ValueError" {ditems_lit(cpairs)} {obs}'
                             else:
                                 mterm = (f'c18_batch_M {lit.b(items_form)} {fails_lit(fails)} {kind_lit(kind)} {lit.z(k)} {lit.z(c)} {nat_list(choices)} '
-                                         f'{pairs_lit(cpairs)} {obs}')
-                                sterm = f'c18_batch_S {lit.b(items_form)} {fails_lit(fails)} {pairs_lit(cpairs)} {obs}'
+                                         f'{ditems_lit(cpairs)} {obs}')
+                                sterm = f'c18_batch_S {lit.b(items_form)} {fails_lit(fails)} {ditems_lit(cpairs)} {obs}'
                             tags = {'op': 'Batch.' + op, 'kind': kind}
                             if refused:
                                 # in the finding's class by construction: an *_except form with chunksize != 1
@@ -1184,8 +1255,16 @@ def bus_store_cases(ctx, tmp):
             install_free({})
             fp1 = os.path.join(tmp, f'bus_par{serial}.zip')
             fp2 = os.path.join(tmp, f'bus_ser{serial}.zip')
-            cfg_p = sf.StoreConfig(index_depth=1, write_max_workers=k, write_chunksize=c, read_max_workers=k, read_chunksize=c)
-            cfg_s = sf.StoreConfig(index_depth=1)
+            wk = dict(write_max_workers=k, write_chunksize=c, read_max_workers=k, read_chunksize=c)
+            if serial % 2:
+                cfg_p = sf.StoreConfig(index_depth=1, **wk)
+                cfg_s = sf.StoreConfig(index_depth=1)
+            else:
+                # per-label configs (aligned with the default's worker settings): B1 and B3 are stored without their index
+                cfg_p = sf.StoreConfigMap({lb: sf.StoreConfig(index_depth=0, include_index=False, **wk) for lb in ('B1', 'B3')},
+                                          default=sf.StoreConfig(index_depth=1, **wk))
+                cfg_s = sf.StoreConfigMap({lb: sf.StoreConfig(index_depth=0, include_index=False) for lb in ('B1', 'B3')},
+                                          default=sf.StoreConfig(index_depth=1))
             py_fail = None
             try:
                 bus = sf.Bus.from_frames(frames)
@@ -1222,7 +1301,8 @@ def bus_store_cases(ctx, tmp):
             ctx.count(f'bus-store:{fmt}')
             yield Case(f'api:bus-store-{fmt}',
                        {'call': f'Bus.from_frames(B0..B4).to_zip_{fmt}(fp, config=StoreConfig(index_depth=1, write_max_workers={k}, write_chunksize={c}, read_max_workers={k}, '
-                                f'read_chunksize={c})); Bus.from_zip_{fmt}(fp, config=same) vs the same without workers'},
+                                f'read_chunksize={c})); Bus.from_zip_{fmt}(fp, config=same) vs the same without workers',
+                        'config': 'one StoreConfig' if serial % 2 else 'StoreConfigMap: B1, B3 -> StoreConfig(index_depth=0, include_index=False, same workers), default as in call'},
                        py_fail=py_fail, tags={'op': 'bus-store', 'fmt': fmt}, nontrivial=True)
 
 
@@ -1268,6 +1348,7 @@ def config_cases(ctx):
                                {'call': 'StoreConfigMap({k0: cfg, ...}, default=default); cm[k0], cm[k1], cm[k7]', 'default': default, 'flipped_in_k0': list(flipped),
                                 'entries': len(m), 'observed': obs},
                                m=f'c18_config_M {wl(default)} {mlit} [0; 1; 7] {obs}',
+                               s=f'c18_config_S {wl(default)} {mlit} {obs}',
                                tags={'op': 'StoreConfigMap'}, nontrivial=bool(flipped))
 
 
@@ -1296,10 +1377,8 @@ def _cases(ctx):
     ks = list(range(1, 9))
     rot = [ctx.rng.randint(0, 1000)]
     # the oracle first: if the contract does not hold the rest is meaningless (MachineryError)
-    yield from oracle_cases(ctx, 'threads', range(0, 5 if quick else 6), ks)
-    yield from oracle_cases(ctx, 'procs', range(0, 4 if quick else 5), [1, 2, 3, 8] if quick else ks)
-    yield from config_cases(ctx)
-    yield from malformed_cases(ctx)
+    yield from oracle_cases(ctx, 'threads', (3, 0, 1, 2, 4) if quick else (3, 0, 1, 2, 4, 5), ks)
+    yield from oracle_cases(ctx, 'procs', (3, 0, 1, 2) if quick else (3, 0, 1, 2, 4), [2, 1, 3, 8] if quick else [2, 1, 3, 4, 5, 6, 7, 8])
 
     def rotate(specs, count):
         out = []
@@ -1308,8 +1387,11 @@ def _cases(ctx):
             rot[0] += 1
         return out
     # apply_pool, thread pools, every feasible schedule
-    for n in (0, 1, 2):
-        yield from apply_pool_cases(ctx, 'threads', n, iface_specs(n), ks, cs_threads, 'light' if (quick and n == 2) else 'full', 'api:apply_pool-threads', rot)
+    for n in (2, 0, 1):
+        yield from apply_pool_cases(ctx, 'threads', n, iface_specs(n), [2, 1, 3, 4, 5, 6, 7, 8], cs_threads, 'light' if (quick and n == 2) else 'full',
+                                    'api:apply_pool-threads', rot)
+    yield from config_cases(ctx)
+    yield from malformed_cases(ctx)
     if quick:
         specs3 = iface_specs(3)
         half = rotate(specs3, 5)
